@@ -38,10 +38,10 @@ LEVEL_NOTE = ("Trusted: Lean kernel; the hand-written model of dataframe.py:574-
               "Field filter and a filter of another length, which to_csv accepts). Fixed by the proposed patches NC18c/d/e "
               "(locale encoding and newline translation, caller's column_filter mutated, same-named foreign filter field drops a column).")
 RULE = ("exhaustive: every (row count n <= N, chunk_row_size 1..n+2, row filter = none or every boolean vector of length 0..n+1) "
-        "(quick N=4, thorough N=6), filter kind (ndarray / own field / memory field / other frame's field) and column selection "
+        "(quick N=5, thorough N=7), filter kind (ndarray / own field / memory field / other frame's field) and column selection "
         "(none / one / subset / reordered / duplicated / containing the filter column) rotating, cell contents rotating through a pool with "
         "separators, quotes, line feeds, carriage returns, blanks, multi-byte text and the extremes of every numeric dtype; every "
-        "string of length <= L over {a,blank,comma,quote,LF,CR} through csv.writer/csv.reader vs the Lean writer/reader (quick L=5, "
+        "string of length <= L over {a,blank,comma,quote,LF,CR} through csv.writer/csv.reader vs the Lean writer/reader (quick L=6, "
         "thorough L=7); seeded random larger frames (n <= 60, chunk sizes around divisors of n and the default 1<<15) and a malformed stream "
         "(chunk_row_size <= 0, unknown/empty/tuple column filters, non-boolean filter fields, list filters, empty selections, "
         "columns of unequal length). Non-trivial = a successful export with at least 2 data rows and (a filter that drops a row or a "
@@ -305,7 +305,7 @@ def gen_cases(tier, rng):
     from checks import corpus
     cases = list(corpus.load("C18"))
     quick = tier == "quick"
-    N = 4 if quick else 6
+    N = 5 if quick else 7
     k = 0
     # ---- exhaustive: n x crs x filter vector, everything else rotating -----------------------------------------
     for n in range(N + 1):
@@ -333,7 +333,7 @@ def gen_cases(tier, rng):
         cases.append(finish_case({"op": "c18_to_csv", "cols": make_cols(["str", "int32", "str"], 3, k, names=names), "crs": 2,
                                   "rf": {"kind": "none"}, "cf": {"kind": "none"}}, k, 10 ** 9))
     # ---- csv.writer / csv.reader vs the Lean writer / reader, exhaustive over short strings ---------------------
-    L = 5 if quick else 7
+    L = 6 if quick else 7
     strs = all_strings(L)
     B = 400
     for i in range(0, len(strs), B):
@@ -344,7 +344,7 @@ def gen_cases(tier, rng):
     for i in range(0, len(rows), B):
         cases.append({"op": "c18_render", "rows": rows[i:i + B], "_n": i})
     # ---- seeded random ------------------------------------------------------------------------------------------
-    R = 500 if quick else 12000
+    R = 1500 if quick else 25000
     for _ in range(R):
         k += 1
         n = rng.choice([0, 1, 2, 3, 5, 8, 12, 16, 24, 33, 60]) if rng.random() < 0.7 else rng.randrange(0, 61)
